@@ -35,5 +35,6 @@ def run(ctx):
         "other_property_rejections": res["other_property_rejections"], "tlc": mc["detail"],
         "bounded_search": {"programs": res["bounded_searches"], "runs": res["bounded_search_runs"], "finished_exhaustively": res["bounded_searches_finished"]},
     })
+    
     ctx.assumptions += gc.ASSUMPTIONS
     return "model_checking"
